@@ -11,8 +11,8 @@ import time
 from . import tlc
 
 ROOT = os.path.dirname(os.path.dirname(os.path.abspath(__file__)))
-OUT = os.path.join(ROOT, "out")
-EVID = os.path.join(ROOT, "evidence")
+OUT = os.environ.get("VERIF_OUT") or os.path.join(ROOT, "out")
+EVID = os.path.join(ROOT, "evidence") if not os.environ.get("VERIF_OUT") else os.path.join(OUT, "evidence")
 KNOWN_FILE = os.path.join(ROOT, "KNOWN_FINDINGS.txt")
 
 
